@@ -4,6 +4,13 @@ from common import *
 import cap as capmod
 
 
+CB_CODES = {'decide_bool': 10, 'decide_option': 11, 'decide_result': 12, 'decide_filter': 13, 'decide_filterresult': 14,
+            'decide_skip': 15, 'decide_result_skip': 16, 'decide_unit': 17, 'decide_value': 18,
+            'decide_tok': 19, 'decide_tok_result': 20, 'decide_tok_filter': 21, 'decide_tok_filterresult': 22,
+            'decide_skipcb_unit': 23, 'decide_skipcb_result': 24, 'decide_bump': 25,
+            'decide_bool_b': 10, 'decide_filter_b': 13}
+
+
 def behaviour_codes(c):
     """Per leaf: 0 emit, 1 skip, 2 checksum-decided (harness callback `decide*`)."""
     codes = []
@@ -13,8 +20,8 @@ def behaviour_codes(c):
             codes.append(1 if l['kind'] == 'skip' else 0)
         elif cb in ('logos::skip', 'skip'):
             codes.append(1)
-        elif cb.startswith('decide'):
-            codes.append(2)
+        elif cb in CB_CODES:
+            codes.append(CB_CODES[cb])
         else:
             codes.append(None)     # unknown callback: cannot be modelled
     return codes
@@ -23,6 +30,14 @@ def behaviour_codes(c):
 def leaf_variant(c, i):
     k = c.leaves[i]['kind']
     return None if k == 'skip' else k.split(':', 1)[1]
+
+
+def expected_variant(c, rec):
+    """Variant name the model predicts for an Ok item (any-token callbacks of the corpus choose Alt when k >= 2)."""
+    codes = behaviour_codes(c)
+    if rec[1] is not None and codes[rec[1]] in (19, 20, 21, 22) and getattr(rec, 'k', 0) >= 2:
+        return 'Alt'
+    return leaf_variant(c, rec[1])
 
 
 def problem_header(c, with_dfa=True, hints=False):
@@ -90,14 +105,27 @@ def run_modeldrv(exe, jobs):
     return out
 
 
+class MItem(tuple):
+    """(ok, leaf|None, s, e) with extra attributes .custom (error supplied by the callback) and .k (checksum)."""
+    def __new__(cls, ok, leaf, s, e, custom=0, k=0):
+        o = super().__new__(cls, (ok, leaf, s, e))
+        o.custom = custom; o.k = k
+        return o
+
+
 def parse_model_line(s):
-    """'n n n ...' -> (items [(ok, leaf|None, s, e)], final).  Item records start with 0/1,
-    the trailer with 2 (Finished s e), 3 (Broken) or 4."""
+    """'n n n ...' -> (items, final).  Region records are six numbers: items start with 0/1,
+    skipped regions with 5 (kept in items.skips); the trailer is 2 s e (Finished), 3 (Broken) or 4."""
     ns = [int(x) for x in s.split()] if s.strip() not in ('', '-') else []
-    items = []; i = 0
-    while i + 3 < len(ns) and ns[i] in (0, 1):
-        items.append((ns[i] == 1, None if ns[i + 1] == 0 else ns[i + 1] - 1, ns[i + 2], ns[i + 3]))
-        i += 4
+    items = ItemList(); i = 0
+    while i + 5 < len(ns) and ns[i] in (0, 1, 5):
+        rec = MItem(ns[i] == 1, None if ns[i + 1] == 0 else ns[i + 1] - 1, ns[i + 2], ns[i + 3], ns[i + 4], ns[i + 5])
+        if ns[i] == 5:
+            items.skips.append(rec)
+        else:
+            items.append(rec)
+        items.regions.append((ns[i] == 5, rec))
+        i += 6
     rest = ns[i:]
     if len(rest) == 3 and rest[0] == 2:
         final = ('fin', rest[1], rest[2])
@@ -106,6 +134,13 @@ def parse_model_line(s):
     else:
         final = ('odd', rest)
     return items, final
+
+
+class ItemList(list):
+    def __init__(self, *a):
+        super().__init__(*a)
+        self.skips = []
+        self.regions = []
 
 
 def parse_model_output(lines):
@@ -122,7 +157,7 @@ def parse_model_output(lines):
 
 def parse_real_line(s):
     """'O:Var:s:e;E:hex:s:e;F:s:e;...' -> dict(items, finals, flags, panic, traces)"""
-    r = dict(items=[], finals=[], bad_slice=False, panic=None, traces=[], raw=s)
+    r = dict(items=[], finals=[], bad_slice=False, panic=None, traces=[], raw=s, cbs=[])
     if s.startswith('NODEF') or s.startswith('BADUTF8'):
         r['panic'] = s
         return r
@@ -133,6 +168,12 @@ def parse_real_line(s):
             r['panic'] = capmod.unhex(part[6:]).decode('utf8', 'replace')
             continue
         tr = None
+        cbs = []
+        m = re.match(r'(.*)\{(.*)\}$', part)
+        if m:
+            part = m[1]
+            cbs = [tuple(x.split(':')) for x in m[2].split(',')]
+        r['cbs'].append(cbs)
         m = re.match(r'(.*)\[(.*)\]$', part)
         if m:
             part, tr = m[1], m[2]
@@ -192,8 +233,8 @@ def compare(c, real, model_items, model_final, check_final=True):
     for k, (a, b) in enumerate(zip(ri, model_items)):
         if a[0] != b[0] or a[2] != b[2] or a[3] != b[3]:
             return 'item %d real %r model %r' % (k, a, b)
-        if a[0] and leaf_variant(c, b[1]) != a[1]:
-            return 'item %d variant real %s model leaf %d (%s)' % (k, a[1], b[1], leaf_variant(c, b[1]))
+        if a[0] and expected_variant(c, b) != a[1]:
+            return 'item %d variant real %s model leaf %d (%s)' % (k, a[1], b[1], expected_variant(c, b))
     if check_final and model_final:
         fins = real['finals']
         if not fins:
